@@ -231,6 +231,44 @@ func c16Inputs(thorough bool) []c16case {
 		a, b := iv.gen(i)
 		add(fmt.Sprintf("ios-vrf-intf:%d", i), "IOS", a, b)
 	}
+	for _, sp := range []struct {
+		s    *space
+		q, t int64
+	}{{c01ACLSpace("acl", 6, 3), 53, 11}, {c01GroupSpace("grp", 3), 101, 23}, {asaBindSpace(), 7, 2}, {routePairSpace("ASA"), 257, 61},
+		{c02ACLSpace("acl", 6, 3), 149, 37}, {c02LogSpace(), 251, 59}, {iosIntfSpace(), 5, 1}, {iosCryptoSpace(), 1, 1}, {routePairSpace("IOS"), 257, 61},
+		{iosRawBlocksSpace("raw-blocks", c02Lines, 5, 3), 17, 5}, {noiseSpace("ASA"), 13, 3}} {
+		for i := int64(2); i < sp.s.n; i += stride(sp.q, sp.t) {
+			a, b := sp.s.gen(i)
+			add(fmt.Sprintf("%s-%s:%d", strings.ToLower(sp.s.model), sp.s.name, i), sp.s.model, a, b)
+		}
+	}
+	for _, sp := range []struct {
+		s    *linSpace
+		q, t int64
+	}{{linuxRuleSpace("rules", 16, 2), 211, 53}, {linuxStructSpace(), 7, 2}} {
+		for i := int64(1); i < sp.s.n; i += stride(sp.q, sp.t) {
+			a, b := sp.s.gen(i)
+			add(fmt.Sprintf("linux-%s:%d", sp.s.name, i), "Linux", core.Files{Main: a}, b)
+		}
+	}
+	for _, sp := range []struct {
+		s    *panSpace
+		q, t int64
+	}{{panRuleSpace("rules", 6, 2), 7, 2}, {panSvcSpace(), 5, 1}, {panVsysSpace(), 1, 1}} {
+		for i := int64(1); i < sp.s.n; i += stride(sp.q, sp.t) {
+			a, b := sp.s.gen(i)
+			add(fmt.Sprintf("panos-%s:%d", sp.s.name, i), "PAN-OS", core.Files{Main: a}, b)
+		}
+	}
+	for _, sp := range []struct {
+		s    *nsxSpace
+		q, t int64
+	}{{nsxRuleSpace("rules", 8), 257, 61}, {nsxServiceSpace(), 1, 1}, {nsxPolicySpace(), 1, 1}} {
+		for i := int64(1); i < sp.s.n; i += stride(sp.q, sp.t) {
+			a, b := sp.s.gen(i)
+			add(fmt.Sprintf("nsx-%s:%d", sp.s.name, i), "NSX", core.Files{Main: a}, b)
+		}
+	}
 	return l
 }
 
